@@ -8,6 +8,7 @@ BOUNDS = {
     "quick": "fully symbolic for (Dx,Dy) in {(1,1),(2,1),(1,2)}; (2,2) semi-symbolic (two of the blocks M, Sigma_x, Sigma_y bound to generic rationals, rotated so each block is symbolic in some run); (R_cond,R_x) in {(1,1),(1,2),(2,1)}",
     "thorough": "adds (3,1),(1,3),(2,3),(3,2) semi-symbolic, (2,2) with a single concrete block, batches up to 3",
 }
+ASSUMPTIONS = ["NN-controlled conditional: control_func(u) = u P + q with symbolic u, P"]
 
 
 def cases(tier, seed=0):
